@@ -178,10 +178,35 @@ func genHeader(t *rapid.T, f features, goos, goarch string) (string, []string) {
 			break
 		}
 		labels = append(labels, "plusbuild")
-		for _, l := range lines {
-			b.WriteString(l + "\n")
+		// groups: the +build lines of a file may stand in several comment groups
+		// separated by blank lines (1), and a second constraint may follow in a
+		// group of its own, after a blank line or a plain comment group (2): all
+		// the lines before the package clause are and-ed
+		groups := rapid.IntRange(0, 3).Draw(t, "groups")
+		sep := func() {
+			if rapid.Bool().Draw(t, "commentgroup") {
+				b.WriteString("\n// A plain comment group.\n\n")
+			} else {
+				b.WriteString("\n")
+			}
 		}
-		if f.adjacency && rapid.IntRange(0, 4).Draw(t, "adjacent") == 0 {
+		for i, l := range lines {
+			b.WriteString(l + "\n")
+			if groups >= 1 && i+1 < len(lines) && rapid.Bool().Draw(t, "split") {
+				sep()
+				labels = append(labels, "plusbuild-groups")
+			}
+		}
+		if groups >= 2 {
+			if lines2 := plus(genExpr(t, f, goos, goarch, rapid.IntRange(0, 2).Draw(t, "depth2"))); lines2 != nil {
+				sep()
+				for _, l := range lines2 {
+					b.WriteString(l + "\n")
+				}
+				labels = append(labels, "plusbuild-groups")
+			}
+		}
+		if groups == 0 && f.adjacency && rapid.IntRange(0, 4).Draw(t, "adjacent") == 0 {
 			// no blank line: the +build lines are part of the package doc and ignored by Go
 			labels = append(labels, "plusbuild-adjacent")
 			return b.String(), labels
@@ -555,7 +580,7 @@ func init() {
 	vf.Register(&vf.Check{
 		ID:    "C17",
 		Level: "exploration",
-		Rule: "case = package directory of 1-5 files (name from stem + 0-3 words of {target OS/arch, known OS, known arch, unknown}, optional _test, _/. prefix, non-.go suffix; header from a boolean constraint grammar of depth<=4 rendered as // +build, //go:build, both consistent, both inconsistent, adjacent-to-package) x target platform (host or one of 16 via the verif build-context hook) x Options.BuildTags x yaegi:tags x Test/NoTest; oracle go/build.Context.MatchFile per file; non-trivial = a known OS/arch word in a deciding name position, or a header with >=2 operators, or both syntaxes present; distinct by full case content",
+		Rule: "case = package directory of 1-5 files (name from stem + 0-3 words of {target OS/arch, known OS, known arch, unknown}, optional _test, _/. prefix, non-.go suffix; header from a boolean constraint grammar of depth<=4 rendered as // +build (in one or several comment groups, possibly with a second constraint in a later group), //go:build, both consistent, both inconsistent, adjacent-to-package) x target platform (host or one of 16 via the verif build-context hook) x Options.BuildTags x yaegi:tags x Test/NoTest; oracle go/build.Context.MatchFile per file; non-trivial = a known OS/arch word in a deciding name position, or a header with >=2 operators, or both syntaxes present; distinct by full case content",
 		Assumptions: []string{
 			"go/build.Context.MatchFile of the installed toolchain (go1.23) is the reference; ReleaseTags are the host toolchain's",
 			"yaegi:tags lines are placed in a file that sorts before the generated ones: unconstrained (every other file sees the tags), excluded by its own //go:build or // +build line (the tags are not added), or requiring its own first tag",
